@@ -273,10 +273,10 @@ Lemma selection_block : forall loc src,
 Proof.
   intros loc src. unfold intersecting_line_locations, rows_wf.
   set (L := line_locations src).
-  set (hits := fun il : N * (N * N) => intersects (snd il) loc).
+  set (hits := fun il : N * (N * N) => line_hits (snd il) loc).
   set (E := enumerate_from 0 L).
   replace (N.to_nat (N.of_nat 0 + 1 - 1)) with O by lia.
-  destruct (existsb (fun l => intersects l loc) L) eqn:Hex.
+  destruct (existsb (fun l => line_hits l loc) L) eqn:Hex.
   - (* some line intersects loc *)
     set (j := length (take_while (fun il => negb (hits il)) E)).
     set (X := skip_while (fun il => negb (hits il)) E).
@@ -304,15 +304,26 @@ Proof.
     replace (N.to_nat (N.of_nat j + 1 - 1)) with j by lia.
     split; [lia|]. split.
     { apply N.max_le_iff. right. unfold len. lia. }
-    split; [lia|]. split; [exact Hkpos|].
-    intros q Hq.
-    destruct (nth_error L (j + q)) as [l|] eqn:Hl.
-    2:{ apply nth_error_None in Hl. lia. }
-    exists l. split; [reflexivity|].
-    assert (Hin : In (N.of_nat j + N.of_nat q, l) (take_while hits X)).
-    { rewrite Hsel. apply (nth_error_In _ q). rewrite enumerate_nth.
-      rewrite nth_error_firstn_lt by exact Hq. rewrite nth_error_skipn_add, Hl. reflexivity. }
-    apply take_while_all in Hin. exact Hin.
+    split; [lia|]. split; [exact Hkpos|]. split; [|split].
+    + intros q Hq.
+      destruct (nth_error L (j + q)) as [l|] eqn:Hl.
+      2:{ apply nth_error_None in Hl. lia. }
+      exists l. split; [reflexivity|].
+      assert (Hin : In (N.of_nat j + N.of_nat q, l) (take_while hits X)).
+      { rewrite Hsel. apply (nth_error_In _ q). rewrite enumerate_nth.
+        rewrite nth_error_firstn_lt by exact Hq. rewrite nth_error_skipn_add, Hl. reflexivity. }
+      apply take_while_all in Hin. exact Hin.
+    + intros q l Hq Hl.
+      assert (Hin : In (0 + N.of_nat q, l) (take_while (fun il => negb (hits il)) E)).
+      { rewrite take_while_firstn. fold j. apply (nth_error_In _ q).
+        rewrite nth_error_firstn_lt by exact Hq. unfold E. rewrite enumerate_nth, Hl. reflexivity. }
+      apply take_while_all in Hin. unfold hits in Hin. cbn [snd] in Hin.
+      apply negb_true_iff in Hin. exact Hin.
+    + intros l Hl.
+      assert (Hnext : hits (N.of_nat j + N.of_nat k, l) = false).
+      { apply (take_while_next _ hits X). fold k. rewrite HX. rewrite enumerate_nth.
+        rewrite nth_error_skipn_add, Hl. reflexivity. }
+      exact Hnext.
   - (* no line intersects loc: fallback *)
     pose proof (existsb_false_all _ _ _ Hex) as Hnone.
     assert (Hskip : skip_while (fun il => negb (hits il)) E = []).
@@ -585,14 +596,23 @@ Proof.
   apply andb_true_iff in H. destruct H as [H1 H2].
   apply N.leb_le in H1. apply N.leb_le in H2. apply Nat.leb_le in H3.
   split; [exact H1|]. split; [exact H2|]. split; [exact H3|].
-  destruct (existsb (fun l => intersects l loc) L) eqn:Hex.
-  - apply andb_true_iff in H4. destruct H4 as [Hk Hall]. apply Nat.ltb_lt in Hk.
-    split; [exact Hk|]. intros j Hj.
-    destruct (nth_error L (N.to_nat (n - 1) + j)) as [l|] eqn:Hl.
-    2:{ apply nth_error_None in Hl. lia. }
-    exists l. split; [reflexivity|].
-    apply (forallb_nth _ _ _ j l Hall).
-    rewrite nth_error_firstn_lt by exact Hj. rewrite nth_error_skipn_add. exact Hl.
+  destruct (existsb (fun l => line_hits l loc) L) eqn:Hex.
+  - apply andb_true_iff in H4. destruct H4 as [H4 Hafter].
+    apply andb_true_iff in H4. destruct H4 as [H4 Hbefore].
+    apply andb_true_iff in H4. destruct H4 as [Hk Hall]. apply Nat.ltb_lt in Hk.
+    split; [exact Hk|]. split; [|split].
+    + intros j Hj.
+      destruct (nth_error L (N.to_nat (n - 1) + j)) as [l|] eqn:Hl.
+      2:{ apply nth_error_None in Hl. lia. }
+      exists l. split; [reflexivity|].
+      apply (forallb_nth _ _ _ j l Hall).
+      rewrite nth_error_firstn_lt by exact Hj. rewrite nth_error_skipn_add. exact Hl.
+    + intros j l Hj Hl.
+      assert (Hl' : nth_error (firstn (N.to_nat (n - 1)) L) j = Some l).
+      { rewrite nth_error_firstn_lt by exact Hj. exact Hl. }
+      pose proof (forallb_nth _ _ _ _ _ Hbefore Hl') as Hf. cbv beta in Hf.
+      apply negb_true_iff in Hf. exact Hf.
+    + intros l Hl. rewrite Hl in Hafter. apply negb_true_iff in Hafter. exact Hafter.
   - destruct L as [|l0 L'] eqn:EL.
     + apply andb_true_iff in H4. destruct H4 as [Hn Hk].
       apply N.eqb_eq in Hn. apply Nat.eqb_eq in Hk. split; assumption.
@@ -608,4 +628,153 @@ Proof.
       { rewrite nth_error_skipn_add. rewrite <- Hj. f_equal. lia. }
       pose proof (forallb_nth _ _ _ _ _ Hall Hj') as Hf. cbv beta in Hf.
       apply negb_true_iff in Hf. apply N.leb_gt in Hf. lia.
+Qed.
+
+(* ------------------------------------------------------------------------------------------ *)
+(* The reported line number is the line the byte is on *)
+
+Lemma first_line_number_of_hit : forall src loc i l,
+  nth_error (line_locations src) i = Some l ->
+  line_hits l loc = true ->
+  (forall j lj, (j < i)%nat -> nth_error (line_locations src) j = Some lj -> line_hits lj loc = false) ->
+  first_line_number src loc = N.of_nat i + 1.
+Proof.
+  intros src loc i l Hl Hi Hbefore.
+  destruct (render_total src loc None false) as [out [_ [n [k [Hwf [Hn _]]]]]].
+  rewrite Hn. unfold rows_wf in Hwf.
+  destruct Hwf as [H1 [H2 [H3 H4]]].
+  assert (Hex : existsb (fun l0 => line_hits l0 loc) (line_locations src) = true).
+  { apply existsb_exists. exists l. split; [exact (nth_error_In _ _ Hl)|exact Hi]. }
+  rewrite Hex in H4. destruct H4 as [Hk [Hrows [Hfirst _]]].
+  destruct (Hrows O Hk) as [l0 [Hl0 Hi0]]. rewrite Nat.add_0_r in Hl0.
+  destruct (Nat.lt_trichotomy (N.to_nat (n - 1)) i) as [Hlt|[Heq|Hgt]].
+  - rewrite (Hbefore _ _ Hlt Hl0) in Hi0. discriminate Hi0.
+  - lia.
+  - rewrite (Hfirst _ _ Hgt Hl) in Hi. discriminate Hi.
+Qed.
+
+Lemma hits_byte_inside : forall l o, fst l <= o -> o < snd l -> line_hits l (o, o + 1) = true.
+Proof.
+  intros [b e] o H1 H2. cbn [fst snd] in *. unfold line_hits, intersects, intersect, loc_is_empty. cbn [fst snd].
+  assert (E1 : (b =? e) = false) by (apply N.eqb_neq; lia).
+  assert (E2 : (o =? o + 1) = false) by (apply N.eqb_neq; lia).
+  rewrite E1, E2. cbn [negb andb].
+  assert (E3 : (N.max b o <? N.min e (o + 1)) = true) by (apply N.ltb_lt; lia).
+  rewrite E3. reflexivity.
+Qed.
+
+(* a line that ends at or before o, other than an empty line at o itself *)
+Lemma hits_byte_after : forall l o,
+  snd l <= o -> fst l <= snd l -> (fst l = snd l -> snd l < o) -> line_hits l (o, o + 1) = false.
+Proof.
+  intros [b e] o H1 H2 H3. cbn [fst snd] in *. unfold line_hits, intersects, intersect, loc_is_empty. cbn [fst snd].
+  assert (E2 : (o =? o + 1) = false) by (apply N.eqb_neq; lia).
+  rewrite E2. destruct (b =? e) eqn:E1; cbn [negb andb].
+  - apply N.eqb_eq in E1. specialize (H3 E1).
+    assert (E3 : (o <=? b) = false) by (apply N.leb_gt; lia).
+    rewrite E3. reflexivity.
+  - apply N.eqb_neq in E1.
+    assert (E3 : (N.max b o <? N.min e (o + 1)) = false) by (apply N.ltb_ge; lia).
+    rewrite E3. reflexivity.
+Qed.
+
+Lemma hits_byte_empty_at : forall l o, fst l = o -> snd l = o -> line_hits l (o, o + 1) = true.
+Proof.
+  intros [b e] o H1 H2. cbn [fst snd] in *. subst b e. unfold line_hits, loc_is_empty. cbn [fst snd].
+  rewrite N.eqb_refl.
+  assert (E2 : (o =? o + 1) = false) by (apply N.eqb_neq; lia).
+  rewrite E2. cbn [negb andb].
+  assert (E3 : (o <=? o) = true) by (apply N.leb_le; lia).
+  assert (E4 : (o <? o + 1) = true) by (apply N.ltb_lt; lia).
+  rewrite E3, E4. reflexivity.
+Qed.
+
+(* a line that begins after o: also an empty line right behind the location does not count *)
+Lemma hits_byte_before : forall l o, o + 1 <= fst l -> fst l <= snd l -> line_hits l (o, o + 1) = false.
+Proof.
+  intros [b e] o H1 H2. cbn [fst snd] in *. unfold line_hits, intersects, intersect, loc_is_empty. cbn [fst snd].
+  assert (E2 : (o =? o + 1) = false) by (apply N.eqb_neq; lia).
+  rewrite E2. destruct (b =? e) eqn:E1; cbn [negb andb].
+  - assert (E3 : (b <? o + 1) = false) by (apply N.ltb_ge; lia).
+    rewrite E3. apply andb_false_r.
+  - assert (E3 : (N.max b o <? N.min e (o + 1)) = false) by (apply N.ltb_ge; lia).
+    rewrite E3. reflexivity.
+Qed.
+
+Lemma first_line_number_fallback : forall src loc i l,
+  (forall l', In l' (line_locations src) -> line_hits l' loc = false) ->
+  nth_error (line_locations src) i = Some l ->
+  fst l <= fst loc ->
+  (forall j lj, (i < j)%nat -> nth_error (line_locations src) j = Some lj -> fst loc < fst lj) ->
+  first_line_number src loc = N.of_nat i + 1.
+Proof.
+  intros src loc i l Hnone Hl Hle Hlater.
+  destruct (render_total src loc None false) as [out [_ [n [k [Hwf [Hn _]]]]]].
+  rewrite Hn. unfold rows_wf in Hwf.
+  destruct Hwf as [H1 [H2 [H3 H4]]].
+  assert (Hex : existsb (fun l0 => line_hits l0 loc) (line_locations src) = false).
+  { destruct (existsb (fun l0 => line_hits l0 loc) (line_locations src)) eqn:E; [|reflexivity].
+    apply existsb_exists in E. destruct E as [l' [Hin Hi]]. rewrite (Hnone _ Hin) in Hi. discriminate Hi. }
+  rewrite Hex in H4.
+  destruct (line_locations src) as [|l0 L'] eqn:EL; [destruct i; discriminate Hl|].
+  destruct H4 as [_ [lr [Hlr [Hlrle Hmax]]]].
+  pose proof (Hmax _ _ Hl Hle) as Hi.
+  destruct (Nat.eq_dec i (N.to_nat (n - 1))) as [E|E]; [lia|].
+  assert (Hlt : (i < N.to_nat (n - 1))%nat) by lia.
+  pose proof (Hlater _ _ Hlt Hlr) as Hc. lia.
+Qed.
+
+(* no line is hit: the fallback picks line i *)
+Lemma position_fallback : forall src o i l,
+  nth_error (line_locations src) i = Some l ->
+  fst l <= o ->
+  (forall j lj, (j < i)%nat -> nth_error (line_locations src) j = Some lj -> line_hits lj (o, o + 1) = false) ->
+  (forall j lj, (i < j)%nat -> nth_error (line_locations src) j = Some lj -> o + 1 <= fst lj) ->
+  line_hits l (o, o + 1) = false ->
+  first_line_number src (o, o + 1) = N.of_nat i + 1.
+Proof.
+  intros src o i l Hl Hle Hbefore Hlater Hself.
+  apply (first_line_number_fallback src (o, o + 1) i l); [|exact Hl|exact Hle|].
+  - intros l' Hin. apply In_nth_error in Hin. destruct Hin as [j Hj].
+    destruct (Nat.lt_trichotomy j i) as [Hlt|[Heq|Hgt]].
+    + exact (Hbefore _ _ Hlt Hj).
+    + subst j. rewrite Hl in Hj. inversion Hj. subst l'. exact Hself.
+    + apply hits_byte_before.
+      * exact (Hlater _ _ Hgt Hj).
+      * apply (line_bounds src). exact (nth_error_In _ _ Hj).
+  - intros j lj Hj Hlj. cbn [fst]. pose proof (Hlater _ _ Hj Hlj). lia.
+Qed.
+
+(* A one-byte location at ANY byte of a text -- a byte of a token, a blank, the CR or the LF of a
+   line terminator -- is reported on the line the byte is on: 1 + the number of LFs before it. *)
+Theorem position_of_byte : forall src o,
+  o < len src -> first_line_number src (o, o + 1) = line_number_of src o.
+Proof.
+  intros src o Ho.
+  destruct (nth_error src (N.to_nat o)) as [c|] eqn:Hn.
+  2:{ apply nth_error_None in Hn. unfold len in Ho. lia. }
+  destruct (offset_line _ _ _ Hn) as [i [l [Hl [H1 [H3 H2]]]]].
+  rewrite N2Nat.id in H1, H2.
+  unfold line_number_of. rewrite H3.
+  assert (Hb : fst l <= snd l) by (apply (line_bounds src); exact (nth_error_In _ _ Hl)).
+  assert (Hbefore : forall j lj, (j < i)%nat -> nth_error (line_locations src) j = Some lj ->
+                                 line_hits lj (o, o + 1) = false).
+  { intros j lj Hj Hlj.
+    pose proof (line_ascending _ _ _ _ _ Hj Hlj Hl) as Ha.
+    apply hits_byte_after; [lia| |lia].
+    apply (line_bounds src). exact (nth_error_In _ _ Hlj). }
+  destruct H2 as [H2|[H2 Hlater]].
+  - (* inside the line *)
+    rewrite (first_line_number_of_hit src (o, o + 1) i l Hl); [lia| |exact Hbefore].
+    apply hits_byte_inside; assumption.
+  - (* a byte of the line's terminator *)
+    destruct (N.eq_dec (snd l) o) as [Hat|Hnot].
+    + destruct (N.eq_dec (fst l) (snd l)) as [Hempty|Hnonempty].
+      * (* empty line whose terminator starts here: the line is inside the location *)
+        rewrite (first_line_number_of_hit src (o, o + 1) i l Hl); [lia| |exact Hbefore].
+        apply hits_byte_empty_at; lia.
+      * rewrite (position_fallback src o i l Hl); [lia|lia|exact Hbefore|exact Hlater|].
+        apply hits_byte_after; lia.
+    + rewrite (position_fallback src o i l Hl); [lia|lia|exact Hbefore|exact Hlater|].
+      apply hits_byte_after; lia.
 Qed.
